@@ -24,12 +24,12 @@ CHECKS = {
     "C13": dict(
         level="model_checking", design="DESIGN.md 4/C13",
         technique="TLA+ contract operator (KeyFilter.tla) with TLC-checked consequences; TLC enumerates all (key-position class, arity, pass vector) cases with expected rewrites, each replayed into the real HandleFilterKeyWithCommand for every table command",
-        text="The contract is a decision procedure; TLC checks its consequences on the whole finite case space (arity <= 6 quick / 9 thorough) and every case is instantiated for every command of the tool's own table under whitelist, blacklist and no filter, comparing the forwarded argument list exactly.",
+        text="The contract is a decision procedure; TLC checks its consequences on the whole finite case space (arity <= 6 quick / 9 thorough) and every case is instantiated for every command of the tool's own table under whitelist, blacklist and no filter, comparing the forwarded argument list exactly - called directly (from eight goroutines too) and as the command arrives from the source: upper- and mixed-case name through the real codec and ParseArgs, the path of parseSourceCommand.",
         note="Key positions come from the independent table inside KeyFilter.tla (Redis COMMAND INFO convention); only valid arities are generated."),
     "C10": dict(
         level="model_checking", design="DESIGN.md 4/C10",
         technique="TLA+ reference codec (Resp.tla: Enc + total Dec over bytes); TLC proves the round-trip/prefix theorems on all small value trees (RespMC) and judges every recorded observation of the real encoder/decoder, incl. all single-point substitutions and truncations of small encodings (RespTrace)",
-        text="The round-trip and 'a proper prefix never decodes' theorems are model-checked on the reference for all small value trees; the real codec is bound to the reference by trace validation of observations: encodings (integers across the pre-rendered table boundaries), decoded values and decoder positions for streams with keep-alive newlines and inline lines through fragmenting readers and small bufio sizes, and exhaustive single-point corruption / truncation of small encodings, each judged by TLC.",
+        text="The round-trip and 'a proper prefix never decodes' theorems are model-checked on the reference for all small value trees; the real codec is bound to the reference by trace validation of observations: encodings (integers across the pre-rendered table boundaries; eight goroutines encoding out-of-table integers at once), decoded values and decoder positions for streams with keep-alive newlines and inline lines through fragmenting readers and small bufio sizes, and exhaustive single-point corruption / truncation of small encodings, each judged by TLC.",
         note="Inputs the reference classifies as unspecified (sign-prefixed or zero-padded numbers, newline at an element position inside an array) are only compared up to that point; lengths >= 10^7 are not fed to the real decoder (it would allocate them)."),
     "C11": dict(
         level="fault_enumeration", design="DESIGN.md 4/C11",
